@@ -10,6 +10,7 @@ import (
 	"sort"
 	"strings"
 	"sync"
+	"sync/atomic"
 	"testing"
 	"time"
 
@@ -178,6 +179,22 @@ type c32Cluster struct {
 
 var errC32Infra = errors.New("cluster infrastructure fault")
 
+// c32Abort is set when the cluster the histories need cannot be had at all (a
+// real node's own join does not give it the role it asked for, or clusters keep
+// failing): the sections stop instead of retrying for the rest of the time-out.
+var (
+	c32Abort     atomic.Bool
+	c32InfraN    atomic.Int64
+	c32RunForSet *kit.Run
+)
+
+func c32CountInfra(r *kit.Run) {
+	if n := c32InfraN.Add(1); n == 60 {
+		c32Abort.Store(true)
+		r.Cap("60 cluster faults (leadership lost, joins refused): giving up; the machine or the tree under test cannot keep a three-voter cluster alive")
+	}
+}
+
 var (
 	c32ScratchOnce sync.Once
 	c32ScratchBase string
@@ -237,6 +254,16 @@ func c32NewCluster(t *testing.T, n int, setup func(*Store)) (*c32Cluster, error)
 			}
 			if _, err := s.WaitForLeader(60 * time.Second); err != nil {
 				return nil, fmt.Errorf("follower leader: %w", err)
+			}
+			// the real node's own join is a step of the property too
+			if list, err := c.stores[0].Nodes(); err == nil {
+				if e, in := c32ToConfig(list)[s.ID()]; !in || !e.Voter || e.Addr != s.Addr() {
+					if c32RunForSet != nil && c32Abort.CompareAndSwap(false, true) {
+						c32RunForSet.Violation("C32:role-not-as-asked:new-id-new-addr:as-voter:real-node", fmt.Sprintf("a real node joined a real leader asking to be a voter at %s, the join returned success, and the configuration lists it as %+v (present %v): %s", s.Addr(), e, in, c32List(list)), map[string]any{"history": []c32Op{{Kind: "join", ID: "a", Addr: c32AddrX, Voter: true}}})
+						c32RunForSet.Cap("stopped: the clusters the histories run on cannot be formed")
+					}
+					return nil, fmt.Errorf("real voter not listed as asked: %+v", e)
+				}
 			}
 		}
 		c.base[s.ID()] = c32Entry{Addr: s.Addr(), Voter: true}
@@ -468,7 +495,6 @@ func (c *c32Cluster) step(k *c32Checker, pre c32Config, op c32Op, hist string, r
 	return post, outcome, nil
 }
 
-
 func c32ErrClass(err error) string {
 	m := err.Error()
 	switch {
@@ -621,7 +647,10 @@ func c32Hist(t *testing.T, r *kit.Run, hs [][]c32Op) {
 				hist := c32HistString(h)
 				replay := map[string]any{"history": h}
 				done := false
-				for try := 0; try < c32MaxRetry && !done; try++ {
+				for try := 0; try < c32MaxRetry && !done && !c32Abort.Load(); try++ {
+					if try > 0 {
+						c32CountInfra(r)
+					}
 					if c == nil {
 						var err error
 						if c, err = c32NewCluster(t, 3, nil); err != nil {
@@ -669,13 +698,16 @@ func c32Hist(t *testing.T, r *kit.Run, hs [][]c32Op) {
 					}
 					mu.Unlock()
 				}
-				if !done {
+				if !done && !c32Abort.Load() {
 					r.Cap("history %s could not be completed in %d attempts (leadership kept moving)", hist, c32MaxRetry)
 				}
 			}
 		}()
 	}
 	for i, h := range hs {
+		if c32Abort.Load() {
+			break
+		}
 		if r.OverBudget() {
 			r.Cap("hist: time budget used up after %d of %d histories (shorter histories first)", i, len(hs))
 			break
@@ -823,6 +855,9 @@ func c32NotifyPart(t *testing.T, r *kit.Run, jobs []c32NotifyJob, lives []c32Liv
 		}()
 	}
 	for i, j := range jobs {
+		if c32Abort.Load() {
+			break
+		}
 		if r.OverBudget() {
 			r.Cap("notify: time budget used up after %d of %d sequences", i, len(jobs))
 			break
@@ -832,7 +867,7 @@ func c32NotifyPart(t *testing.T, r *kit.Run, jobs []c32NotifyJob, lives []c32Liv
 	close(work)
 	wg.Wait()
 	r.Set("notify_single_store_outcomes", outcomes)
-	r.Set("notify_stores_opened", opened)
+	fmt.Fprintf(os.Stderr, "C32 notify: %d stores opened for %d sequences\n", opened, len(jobs))
 	r.Set("notify_sequences", len(jobs))
 	r.Set("notify_live_bootstraps", len(lives))
 
@@ -848,6 +883,9 @@ func c32NotifyPart(t *testing.T, r *kit.Run, jobs []c32NotifyJob, lives []c32Liv
 		}()
 	}
 	for i, lb := range lives {
+		if c32Abort.Load() {
+			break
+		}
 		if r.OverBudget() {
 			r.Cap("notify: time budget used up after %d of %d live bootstraps", i, len(lives))
 			break
@@ -963,7 +1001,11 @@ func (v c32Revive) String() string {
 	return fmt.Sprintf("real %s down for %dms, back on %s asking %s", c32Role(v.Voter), v.OutageMs, ad, c32Role(v.NewVoter))
 }
 
-const c32ReviveTimeout = 5 * time.Second
+// With 8 s and a 6.5 s outage raft's replication routine for the old entry has
+// failed ~11 times when the node re-joins, so it stays in its back-off for many
+// seconds more: the window in which a stale failed-heartbeat report can arrive
+// after the timeout is wide, whatever the load.
+const c32ReviveTimeout = 8 * time.Second
 
 func (c c32ReapCase) timeout(voter bool) time.Duration {
 	if voter {
@@ -974,7 +1016,7 @@ func (c c32ReapCase) timeout(voter bool) time.Duration {
 
 func c32RuleReap(depth int) string {
 	short, long := c32ReapShort.Milliseconds(), c32ReapLong.Milliseconds()
-	return (fmt.Sprintf("[reap] every join history of length 1..%d over join(id in {a,b}, address in {x,y}, voter|non-voter) whose first join is join(a,x,.) (the rest follows by renaming ids and addresses) x (ReapTimeout, ReapReadOnlyTimeout) in {(%dms,%dms),(%dms,%dms),(0,%dms),(%dms,0)} on a live cluster of three real voters. The joined members never answer, so raft reports failed heartbeats for them from the moment they are added. The configuration of every real node is polled every 20 ms until every member with a non-zero timeout for its role is gone (30 s allowance) and 1.5 s longer. Oracle: a member may leave the configuration without a remove only when the timeout of the role it holds has elapsed since the harness started the first join of that id (the member has been silent ever since; raft's last-contact time cannot be earlier), and never if that timeout is 0; uniqueness at every observation. Revive cases (both timeouts %dms): a REAL fourth node joins as voter|non-voter, is shut down, stays away for %dms or %dms, comes back with the same data on the same or a new address and re-joins asking voter|non-voter (16 cases); once the leader has reached it again it answers every heartbeat, so it must stay in the configuration while watched (until 4 s past the moment the timeout counted from its shutdown runs out). distinct = (setting, history, fate of each member)", depth, long, short, short, long, short, short, c32ReviveTimeout.Milliseconds(), c32ReviveTimeout.Milliseconds()/5, c32ReviveTimeout.Milliseconds()-1000))
+	return (fmt.Sprintf("[reap] every join history of length 1..%d over join(id in {a,b}, address in {x,y}, voter|non-voter) whose first join is join(a,x,.) (the rest follows by renaming ids and addresses) x (ReapTimeout, ReapReadOnlyTimeout) in {(%dms,%dms),(%dms,%dms),(0,%dms),(%dms,0)} on a live cluster of three real voters. The joined members never answer, so raft reports failed heartbeats for them from the moment they are added. The configuration of every real node is polled every 20 ms until every member with a non-zero timeout for its role is gone (30 s allowance) and 1.5 s longer. Oracle: a member may leave the configuration without a remove only when the timeout of the role it holds has elapsed since the harness started the first join of that id (the member has been silent ever since; raft's last-contact time cannot be earlier), and never if that timeout is 0; uniqueness at every observation. Revive cases (both timeouts %dms): a REAL fourth node joins as voter|non-voter, is shut down, stays away for %dms or %dms, comes back with the same data on the same or a new address and re-joins asking voter|non-voter (16 cases); once the leader has reached it again it answers every heartbeat, so it must stay in the configuration while watched (until 4 s past the moment the timeout counted from its shutdown runs out). distinct = (setting, history, fate of each member)", depth, long, short, short, long, short, short, c32ReviveTimeout.Milliseconds(), int64(1000), c32ReviveTimeout.Milliseconds()-1500))
 }
 
 func c32ReapCases(depth int) []c32ReapCase {
@@ -998,7 +1040,7 @@ func c32ReapCases(depth int) []c32ReapCase {
 	for _, voter := range []bool{true, false} {
 		for _, newVoter := range []bool{true, false} {
 			for _, newAddr := range []bool{false, true} {
-				for _, outage := range []int64{T / 5, T - 1000} {
+				for _, outage := range []int64{1000, T - 1500} {
 					cases = append(cases, c32ReapCase{VoterTimeoutMs: T, NonvoterTimeoutMs: T,
 						Revive: &c32Revive{Voter: voter, NewVoter: newVoter, NewAddr: newAddr, OutageMs: outage}})
 				}
@@ -1025,7 +1067,10 @@ func c32ReapPart(t *testing.T, r *kit.Run, cases []c32ReapCase) {
 			for rc := range work {
 				var out string
 				var err error
-				for try := 0; try < c32MaxRetry; try++ {
+				for try := 0; try < c32MaxRetry && !c32Abort.Load(); try++ {
+					if try > 0 {
+						c32CountInfra(r)
+					}
 					if rc.Revive != nil {
 						out, err = c32RunRevive(t, r, k, rc)
 					} else {
@@ -1036,8 +1081,10 @@ func c32ReapPart(t *testing.T, r *kit.Run, cases []c32ReapCase) {
 					}
 					fmt.Fprintf(os.Stderr, "C32 reap: %v; retrying\n", err)
 				}
-				if err != nil {
-					r.Cap("reap case %+v could not be completed: %v", rc, err)
+				if err != nil || out == "" {
+					if !c32Abort.Load() {
+						r.Cap("reap case %+v could not be completed: %v", rc, err)
+					}
 					continue
 				}
 				r.Eval(1)
@@ -1065,6 +1112,9 @@ func c32ReapPart(t *testing.T, r *kit.Run, cases []c32ReapCase) {
 		}()
 	}
 	for i, rc := range cases {
+		if c32Abort.Load() {
+			break
+		}
 		if r.OverBudget() {
 			r.Cap("reap: time budget used up after %d of %d cases", i, len(cases))
 			break
@@ -1378,7 +1428,7 @@ func c32RunRevive(t *testing.T, r *kit.Run, k *c32Checker, rc c32ReapCase) (stri
 				// the node had not heard from the leader for a long time (a stalled machine): being reaped may be right
 				return "", fmt.Errorf("%w: revived node was removed, but its last contact from the leader is %v old", errC32Infra, time.Since(lc))
 			}
-			r.Violation("C32:responsive-node-reaped:rejoin-"+ad+":"+c32Role(v.Voter)+"-asking-"+c32Role(v.NewVoter),
+			r.Violation(fmt.Sprintf("C32:responsive-node-reaped:rejoin-%s:%s-asking-%s:down-%dms-of-%dms", ad, c32Role(v.Voter), c32Role(v.NewVoter), v.OutageMs, rc.VoterTimeoutMs),
 				fmt.Sprintf("%s: the node was shut down, came back %v later and re-joined; the leader reached it again %v after the re-join and it kept answering (its last contact from the leader is %v old), yet it was removed from the configuration %v after the re-join, %v after its shutdown",
 					desc, back.Sub(down).Round(time.Millisecond), heard.Sub(back).Round(time.Millisecond), time.Since(lc).Round(time.Millisecond), time.Since(back).Round(time.Millisecond), time.Since(down).Round(time.Millisecond)), rc)
 			return "revived-node-reaped", nil
@@ -1393,6 +1443,7 @@ func c32RunRevive(t *testing.T, r *kit.Run, k *c32Checker, rc c32ReapCase) (stri
 func TestVerif_C32(t *testing.T) {
 	r := kit.Start(t, "C32", "members")
 	defer r.Finish()
+	c32RunForSet = r
 	hd, nd, rd := r.Pick(3, 4), r.Pick(3, 4), r.Pick(2, 3)
 	r.Rule(c32RuleHist(hd) + " " + c32RuleNotify(nd) + " " + c32RuleReap(rd))
 	r.Assume("hashicorp/raft's own interleavings are not controlled; every oracle holds for any of them")
